@@ -202,7 +202,12 @@ def _run(line):
                     elif k == "sp":
                         ch.prompt = None if f[2] == "none" else unhx(f[2]); res = "ok"
                     elif k == "sbl":
-                        ch._write_blacklist = list(unhx(f[2])); res = "ok"
+                        rot += 1
+                        if rot % 2:
+                            ch._write_blacklist = list(unhx(f[2]))
+                        else:
+                            ch._write_blacklist[:] = list(unhx(f[2]))      # changed in place (like `+=` / append)
+                        res = "ok"
                     elif k == "ad":
                         ch.add_death_string(unhx(f[2]), dcls(int(f[3]))); res = "ok"
                     elif k == "ss":
